@@ -38,6 +38,9 @@ META = {
             "the worker pool.",
 }
 
+# ---- additions of the translator / tie session (appended to the manifest texts)
+META["text"] += " GenTie.v: the three server caps of the model are the current values of HttpServer::SessionInfo and are ordered as the boundedness theorems need (regenerated every run)."
+
 
 def hx(b):
     return bytes(b).hex() if b else "-"
